@@ -1,8 +1,8 @@
 (* translate/r2c tie, round 3 (4): the sub-byte Framebuffer::set_pixel (body of `impl_bit!`, src/framebuffer.rs:153-172),
    translated as a template over the abstract raw type; bits per pixel, data order, WIDTH, HEIGHT and `c.into()` are
-   parameters.  `self.data[i]` is Casts.slice_idx, `self.data[i] = v` Casts.slice_set, `<<` on u8 truncates (Casts.shl_u8).
+   parameters.  `self.data[i]` is Casts.slice_get (None out of range = the index panic), `self.data[i] = v` Casts.slice_set under the range test, `<<` on u8 truncates (Casts.shl_u8).
    With bits per pixel := bits t the data afterwards equals Framebuffer.fb_set_pixel for the three sub-byte raw types. *)
-From EG Require Import Base.Prelude Base.Casts Model.Geometry Model.Rawdata Model.Framebuffer Gen.SrcGeometry Gen.SrcFbSetPixel Gen.SrcFbSetPixelBits Proofs.SrcLoadStore.
+From EG Require Import Base.Prelude Base.Casts Model.Geometry Model.Rawdata Model.Framebuffer Gen.SrcGeometry Gen.SrcFbSetPixel Gen.SrcFbSetPixelBits Proofs.SrcLoadStore Proofs.SrcFbSetPixel.
 Set Default Timeout 60.
 
 Lemma lxor_255_all : forallb (fun y => Z.lxor y 255 =? 255 - y) (map Z.of_nat (seq 0 256)) = true.
@@ -25,30 +25,64 @@ Proof. rewrite shl_u8_u8. unfold not8. rewrite lxor_255 by apply u8_range. refle
 Lemma sub_byte t : t = U1 \/ t = U2 \/ t = U4 -> 0 < bits t < 8.
 Proof. intros [->|[->| ->]]; cbn; lia. Qed.
 
+(* byte index of the pixel in the sub-byte layouts *)
+Definition bits_byte_index (t : rawty) (W : Z) (p : point) : Z := (W * bits t + 7) / 8 * py p + px p / (8 / bits t).
+
+(* option-valued: None = the index panic of `self.data[byte_index]` (read, then write).  It panics exactly when the point is
+   inside the framebuffer and the byte index is outside the data array; otherwise the data is the model's. *)
 Lemma src_fb_set_pixel_bits_eq t alt W H into fb p c :
   t = U1 \/ t = U2 \/ t = U4 -> 0 <= W ->
   i32_min <= px p <= i32_max -> i32_min <= py p <= i32_max ->
-  Framebuffer_data (src_Framebuffer_set_pixel_bits t W H (bits t) alt into fb p c)
-  = fb_set_pixel (FbCfg t alt W H) (Framebuffer_data fb) (px p, py p) (into c).
+  src_Framebuffer_set_pixel_bits t W H (bits t) alt into fb p c
+  = if in_fb W H p && negb (bits_byte_index t W p <? Z.of_nat (length (Framebuffer_data fb)))
+    then None
+    else Some (Build_Framebuffer (fb_set_pixel (FbCfg t alt W H) (Framebuffer_data fb) (px p, py p) (into c)) (Framebuffer_n_assert fb)).
 Proof.
-  intros Ht HW Hx Hy. pose proof (sub_byte t Ht) as Hb.
-  unfold src_Framebuffer_set_pixel_bits, fb_set_pixel, Casts.try_from_range, i32_min, i32_max in *.
-  cbn [fb_t fb_w fb_h fb_alt].
+  intros Ht HW Hx Hy. pose proof (sub_byte t Ht) as Hb. destruct fb as [data na].
+  unfold src_Framebuffer_set_pixel_bits, fb_set_pixel, in_fb, bits_byte_index, Casts.try_from_range, i32_min, i32_max in *.
+  cbn [fb_t fb_w fb_h fb_alt Framebuffer_data Framebuffer_n_assert].
   destruct (Z.leb_spec 0 (px p)) as [X|X]; cbn [andb].
   2:{ destruct ((px p <=? 18446744073709551615)); reflexivity. }
   destruct (Z.leb_spec 0 (py p)) as [Y|Y]; cbn [andb].
   2:{ rewrite (proj2 (Z.leb_le (px p) 18446744073709551615)) by lia. destruct (py p <=? 18446744073709551615); reflexivity. }
   rewrite (proj2 (Z.leb_le (px p) 18446744073709551615)) by lia.
   rewrite (proj2 (Z.leb_le (py p) 18446744073709551615)) by lia.
-  destruct ((px p <? W) && (py p <? H))%bool; [|destruct Ht as [->|[->| ->]]; reflexivity].
-  cbv zeta. cbn [Framebuffer_data].
+  destruct ((px p <? W) && (py p <? H))%bool; cbn [andb]; [|destruct Ht as [->|[->| ->]]; reflexivity].
+  cbv zeta.
   rewrite Casts.cast_usize_u32_id by lia.
   set (ppb := 8 / bits t). set (bi := (W * bits t + 7) / 8 * py p + px p / ppb).
   assert (Hppb : 0 < ppb) by (unfold ppb; destruct Ht as [->|[->| ->]]; cbn; lia).
   assert (Hbi : 0 <= bi).
   { unfold bi. assert (0 <= (W * bits t + 7) / 8) by (apply Z.div_pos; nia). assert (0 <= px p / ppb) by (apply Z.div_pos; lia). nia. }
+  unfold Casts.slice_get. rewrite (proj2 (Z.leb_le 0 bi) Hbi). cbn [andb].
+  destruct (Z.ltb_spec bi (Z.of_nat (length data))) as [L|L]; cbn [negb]; [|reflexivity].
+  rewrite (nth_error_nth' data 0) by lia.
   rewrite slice_set_eq by exact Hbi.
-  rewrite mask_not8, shl_u8_u8. unfold Casts.extern_id, Casts.slice_idx, data_at.
-  rewrite (proj2 (Z.leb_le 0 bi) Hbi).
+  rewrite mask_not8, shl_u8_u8. unfold Casts.extern_id, data_at.
   destruct Ht as [->|[->| ->]]; reflexivity.
+Qed.
+
+(* with the buffer that CHECK_N demands (N >= bytes_per_row * HEIGHT) set_pixel never panics *)
+Lemma src_fb_set_pixel_bits_some t alt W H into fb p c :
+  t = U1 \/ t = U2 \/ t = U4 -> 0 <= W ->
+  i32_min <= px p <= i32_max -> i32_min <= py p <= i32_max ->
+  (W * bits t + 7) / 8 * H <= Z.of_nat (length (Framebuffer_data fb)) ->
+  src_Framebuffer_set_pixel_bits t W H (bits t) alt into fb p c
+  = Some (Build_Framebuffer (fb_set_pixel (FbCfg t alt W H) (Framebuffer_data fb) (px p, py p) (into c)) (Framebuffer_n_assert fb)).
+Proof.
+  intros Ht HW Hx Hy HB. rewrite (src_fb_set_pixel_bits_eq t alt) by assumption.
+  destruct (in_fb W H p) eqn:E; [|reflexivity]. unfold in_fb in E.
+  repeat (apply andb_prop in E; destruct E as [E ?]).
+  repeat match goal with H : andb _ _ = true |- _ => apply andb_prop in H; destruct H end.
+  repeat match goal with H : (_ <=? _) = true |- _ => apply Z.leb_le in H | H : (_ <? _) = true |- _ => apply Z.ltb_lt in H end.
+  rewrite (proj2 (Z.ltb_lt _ _)); [reflexivity|]. unfold bits_byte_index.
+  set (bpr := (W * bits t + 7) / 8) in *.
+  assert (px p / (8 / bits t) < bpr).
+  { unfold bpr. destruct Ht as [->|[->| ->]]; cbn [bits]; change (8 / 1) with 8; change (8 / 2) with 4; change (8 / 4) with 2;
+    apply Z.div_lt_upper_bound; try lia;
+    [ pose proof (Z.mul_div_le (W * 1 + 7) 8 ltac:(lia)); pose proof (Z.mod_pos_bound (W * 1 + 7) 8 ltac:(lia)); pose proof (Z.div_mod (W * 1 + 7) 8 ltac:(lia)); lia
+    | pose proof (Z.mod_pos_bound (W * 2 + 7) 8 ltac:(lia)); pose proof (Z.div_mod (W * 2 + 7) 8 ltac:(lia)); lia
+    | pose proof (Z.mod_pos_bound (W * 4 + 7) 8 ltac:(lia)); pose proof (Z.div_mod (W * 4 + 7) 8 ltac:(lia)); lia ]. }
+  assert (0 <= bpr) by (unfold bpr; apply Z.div_pos; [destruct Ht as [->|[->| ->]]; cbn; lia|lia]).
+  nia.
 Qed.
